@@ -26,6 +26,11 @@ Definition det (u v w : pt) : R := dot u (cross v w).
 Definition norm2 (u : pt) : R := dot u u.
 Definition norm (u : pt) : R := sqrt (norm2 u).
 
+(* the entries of a card: a vector is three consecutive entries; the 24 vertex
+   coordinates of ARB *)
+Definition pl (v : pt) : list R := let '(x, y, z) := v in [x; y; z].
+Definition flat (V : list pt) : list R := concat (map pl V).
+
 (* ------------------------------------------------------------------ *)
 (* Reading of an emitted entry: the equation of the surface type        *)
 (* ------------------------------------------------------------------ *)
@@ -207,3 +212,29 @@ Definition arb_facet_of (vs : list pt) (f : list nat) : pt -> R :=
   end.
 Definition arb_facets (vs : list pt) (facets : list (list nat)) : list (pt -> R) :=
   map (arb_facet_of vs) facets.
+
+(* ------------------------------------------------------------------ *)
+(* MCNP's admissibility conditions (the guards of the theorems)         *)
+(* ------------------------------------------------------------------ *)
+(* BOX: a right parallelepiped, either handedness *)
+Definition box_admissible (a1 a2 a3 : pt) : Prop :=
+  dot a1 a2 = 0 /\ dot a1 a3 = 0 /\ dot a2 a3 = 0 /\ det a1 a2 a3 <> 0.
+(* WED: a right wedge, either handedness *)
+Definition wed_admissible (a b h : pt) : Prop :=
+  dot a b = 0 /\ dot a h = 0 /\ dot b h = 0 /\ det a b h <> 0.
+
+(* ARB: vertex numbers used by the descriptors, in descriptor order *)
+Definition arb_facet_lists (descr : list N) : list (list nat) :=
+  filter (fun f => negb (is_nil f)) (map parse_facet descr).
+Definition arb_nvert (descr : list N) : nat :=
+  List.length (nodup_nat (concat (arb_facet_lists descr))).
+
+(* ARB facet: three vertex numbers in range, the vertices not (almost)
+   collinear -- with the threshold of planeParamsFromPoints -- and the vertex
+   centroid strictly off the plane (strictly inside a convex polyhedron) *)
+Definition facet_admissible (vs : list pt) (cen : pt) (f : list nat) : Prop :=
+  exists i1 i2 i3 rest p1 p2 p3,
+    f = i1 :: i2 :: i3 :: rest /\
+    nth_error vs i1 = Some p1 /\ nth_error vs i2 = Some p2 /\ nth_error vs i3 = Some p3 /\
+    let n := cross (vsub p1 p2) (vsub p1 p3) in
+    1 / 10000000000 < norm2 n /\ dot n (vsub cen p1) <> 0.
